@@ -114,6 +114,7 @@ type Obligation struct {
 	Bounded   bool
 	ExpectSat bool
 	Blk       int // block of the function under proof the obligation arises in (-1: none)
+	Short     bool // listed known finding: short solver budget, no retry
 }
 
 // VC accumulates the facts and obligations generated for one function.
